@@ -1,6 +1,6 @@
 (* C16 — property theorems.  Only statements, [exact lemma] and Print Assumptions. *)
 From Coq Require Import ZArith List.
-From FV Require Import C16.Model C16.Proofs C16.Proofs2 C16.Proofs3.
+From FV Require Import C16.Model C16.Proofs C16.Proofs2 C16.Proofs3 C16.Proofs4.
 Import ListNotations.
 Open Scope Z_scope.
 
@@ -98,6 +98,23 @@ Theorem built_coverage_meets_split_assumptions : forall (G : list Z) (f : bool),
   cov_wf c /\ ssorted (cov_iter c) /\ Forall u16 (cov_iter c) /\ (forall g, cov_sem c g = index_of g (cov_iter c)).
 Proof. exact built_cov_iter_ok. Qed.
 
+(* ClassPairPosBuilder::insert (sequence of insert_classes calls): a rule only ever changes the LAST class subtable or
+   appends a fresh one; every answer already decided by an earlier subtable is preserved by every later insertion;
+   and a value coming out of the class subtables is the value of an inserted rule that covers the pair
+   (nothing for pairs without a rule). *)
+Theorem class_rule_insert_touches_only_last_subtable : forall (V : Type) (pre : list (cgroup V)) last c1 c2 v,
+  cpp_insert (pre ++ [last]) c1 c2 v =
+  pre ++ (if cg_can_add last c1 c2 then [cg_add last c1 c2 v] else [last; cg_add cg_empty c1 c2 v]).
+Proof. exact @cpp_insert_last. Qed.
+Theorem class_rule_insert_preserves_earlier_answers : forall (V : Type) (pre : list (cgroup V)) last c1 c2 v x y r,
+  first_some (fun g => cg_lookup g x y) pre = Some r ->
+  cpp_lookup (cpp_insert (pre ++ [last]) c1 c2 v) x y = Some r.
+Proof. exact @cpp_insert_preserves_earlier_lemma. Qed.
+Theorem class_subtable_values_come_from_covering_rules : forall (V : Type) (rules : list (list Z * list Z * V)) x y v,
+  cpp_lookup (cpp_build rules) x y = Some (Some v) ->
+  exists c1 c2, In (c1, c2, v) rules /\ In x c1 /\ In y c2.
+Proof. exact @cpp_lookup_sound_lemma. Qed.
+
 Print Assumptions coverage_get_spec.
 Print Assumptions coverage_get_spec_chosen_format.
 Print Assumptions coverage_format_choice_irrelevant.
@@ -117,3 +134,6 @@ Print Assumptions split_m2b_preserves.
 Print Assumptions promote_preserves.
 Print Assumptions built_coverage_iterates_the_set.
 Print Assumptions built_coverage_meets_split_assumptions.
+Print Assumptions class_rule_insert_touches_only_last_subtable.
+Print Assumptions class_rule_insert_preserves_earlier_answers.
+Print Assumptions class_subtable_values_come_from_covering_rules.
